@@ -28,6 +28,8 @@ NAMES = ["nordicsemi.com", "nRF54H20_sample_root", "", "a", "é中\U0001f600", "
 SPECIAL_PAIRS = [(("acme.example", "9160"), ("acme.example", "0x54")), (("y", "y"), ("n", "0")), (("0x1F", "42"), ("42", "0x1F")),
                  (("example.com/lighting", "bulb"), ("example.com", "lighting/bulb")), (("a b", "c"), ("a", "b c")), (("a", "b,c"), ("a,b", "c")),
                  (("a:b", "c"), ("a", "b:c")), (("a", "b|c"), ("a|b", "c")), (("ab", "c"), ("a", "bc")), (("x.example", "y"), ("x.example", "Y")),
+                 (("acme.example ", "cls"), ("acme.example", "cls")), (("ACME Corp", " gateway"), ("ACME Corp", "gateway\t")), (("acme.example", "cls "), ("acme.example", " cls")),
+                 (("acme.example", "e\u0301"), ("acme.example", "\u00e9")),
                  (("acme.example", "é"), ("acme.example", "e")), (("Ölpumpe.example", "Wärmepumpe_app"), ("müller-geräte.example", "rad"))]
 
 
@@ -118,7 +120,7 @@ def run(tier: str, seed: int) -> int:
                 res.spec_failures.append({"vendor": v, "class": c, "site": "mpi (command line)", "got": rec[16:48].hex(), "expected": (evid + ecid).hex(),
                                           "what": "MPI record written through the command line: bytes 16..47 are not the vendor / class UUIDv5 of the names given"})
         # site 3 + kconfig semantics, end to end through image boot
-        n = 40 if tier == "quick" else 1500
+        n = 108 if tier == "quick" else 1500
         for i in range(n):
             kind = ["assign", "assign", "collision-roles", "collision-default", "unquoted", "missing-class"][i % 6]
             soc = rng.choice(["nrf54h20", "nrf9280"])
@@ -141,9 +143,9 @@ def run(tier: str, seed: int) -> int:
                 v1, c1 = dv, dc
                 lines = [f'SB_CONFIG_SUIT_MPI_{c07.CONFIGURABLE[roles[0]]}_VENDOR_NAME="{v1}"', f'SB_CONFIG_SUIT_MPI_{c07.CONFIGURABLE[roles[0]]}_CLASS_NAME="{c1}"']
             elif kind == "assign":
-                if i % 12 == 1 or rng.random() < 0.25:
+                if i % 6 == 1 or rng.random() < 0.25:
                     # names that look like other kconfig value kinds once the quotes are gone, and pairs of distinct pairs whose joined spellings coincide
-                    (v1, c1), (v2, c2) = rng.choice(SPECIAL_PAIRS) if i % 12 != 1 else SPECIAL_PAIRS[(i // 12) % len(SPECIAL_PAIRS)]
+                    (v1, c1), (v2, c2) = rng.choice(SPECIAL_PAIRS) if i % 6 != 1 else SPECIAL_PAIRS[(i // 6) % len(SPECIAL_PAIRS)]
                     if rng.random() < 0.5:
                         (v1, c1), (v2, c2) = (v2, c2), (v1, c1)
                     lines = [f'SB_CONFIG_SUIT_MPI_{c07.CONFIGURABLE[roles[0]]}_VENDOR_NAME="{v1}"', f'SB_CONFIG_SUIT_MPI_{c07.CONFIGURABLE[roles[0]]}_CLASS_NAME="{c1}"']
@@ -202,10 +204,40 @@ def run(tier: str, seed: int) -> int:
                 if mimg != img:
                     res.mismatches.append({"op": "storage.boot", "kind": kind, "kconfig": kconfig})
     ncs_build_cases(res, drv, seed)
+    unquoted_yaml_names(res)
     res.sample({"vendor": "nordicsemi.com", "class": "nRF54H20_sample_root", "vid": rfc4122_v5(DNS, "nordicsemi.com").hex(),
                 "cid": rfc4122_v5(rfc4122_v5(DNS, "nordicsemi.com"), "nRF54H20_sample_root").hex()})
     drv.close()
     return finish(res, st, RULE, NOTE)
+
+
+def unquoted_yaml_names(res):
+    """a name written without quotes in a YAML description: if the tool accepts it at all, the identifier is that of the text as written (YAML 1.1 reads
+    0100 as the number 64, 1_000 as 1000, 1.10 as 1.1, yes as true, 1:30 as 90 - a tool that goes on with what the loader made of it names another class)"""
+    from .. import cbortree as ct
+    from concurrent.futures import ThreadPoolExecutor
+    names = ["0100", "1_000", "1.10", "0x54", "yes", "1:30", "9160", "sensor_v2", "0o17", "1e3"]
+    with tempfile.TemporaryDirectory(prefix="verif_c13y_") as d:
+        def one(k):
+            nm = names[k]
+            inp, out = os.path.join(d, f"u{k}.yaml"), os.path.join(d, f"u{k}.suit")
+            with open(inp, "w") as fh:
+                fh.write("SUIT_Envelope_Tagged:\n  suit-authentication-wrapper:\n    SuitDigest:\n      suit-digest-algorithm-id: cose-alg-sha-256\n"
+                         "  suit-manifest:\n    suit-manifest-version: 1\n    suit-manifest-sequence-number: 1\n    suit-manifest-component-id:\n    - INSTLD_MFST\n"
+                         f"    - RFC4122_UUID:\n        namespace: acme.example\n        name: {nm}\n")
+            rc, log = common.run_cli(["create", "--input-file", inp, "--output-file", out], d)
+            return rc, (open(out, "rb").read() if os.path.exists(out) else None)
+        with ThreadPoolExecutor(max_workers=10) as ex:
+            outs = list(ex.map(one, range(len(names))))
+    for nm, (rc, data) in zip(names, outs):
+        res.case(["unquoted-yaml-name", nm], nontrivial=True)
+        res.count("sites:manifest-unquoted-yaml-name:" + ("accepted" if rc == 0 and data else "refused"))
+        if rc != 0 or not data:
+            continue
+        want = rfc4122_v5(rfc4122_v5(DNS, "acme.example"), nm)
+        if want not in data:
+            res.spec_failures.append({"name_as_written": nm, "site": "manifest (YAML description, name without quotes)", "expected_class_id": want.hex(),
+                                      "what": "the class identifier in the envelope is not UUIDv5 of the name as it is written in the description"})
 
 
 def ncs_build_cases(res, drv, seed):
